@@ -295,7 +295,9 @@ impl CompositeIR {
 impl ToTokensWithSettings for CompositeFieldIR {
     fn to_tokens(&self, tokens: &mut TokenStream, settings: &TypeGeneratorSettings) {
         let ty_path = &self.type_path.to_syn_type(&settings.alloc_crate_path);
-        if self.is_boxed {
+        // A compact field is emitted as its inner type plus `#[codec(compact)]`; wrapping that
+        // in a `Box` would ask for `Box<T>: HasCompact`, which does not exist.
+        if self.is_boxed && !self.is_compact {
             let alloc_path = &settings.alloc_crate_path;
             tokens.extend(quote! { #alloc_path::boxed::Box<#ty_path> })
         } else {
